@@ -139,7 +139,7 @@ fn build(c: &Case) -> Invocation {
         }
     }
     let _ = used_stdin;
-    Invocation { args, files, stdin, out: if c.out_file { OutKind::File } else { OutKind::Pipe }, bin: if c.debug { Bin::Debug } else { Bin::Release } }
+    Invocation { args, files, stdin, out: if c.out_file { OutKind::File } else { OutKind::Pipe }, bin: if c.debug { Bin::Debug } else { Bin::Release }, stdin_file_offset: None }
 }
 
 fn check_invocation(inv: &Invocation, rec: &mut Recorder) -> Result<(), String> {
